@@ -142,7 +142,49 @@ impl<'a> Ctx<'a> {
                 c(CardBody::Function(self.rng.pick(&self.callable).call_name.clone()))
             }
             22 => self.closure(d),
-            23 => c(CardBody::NativeFunction("log".into())),
+            23 => {
+                // standard library on a table variable, with a script callback
+                let tv = self.table_vars();
+                if tv.is_empty() {
+                    return c(CardBody::NativeFunction("log".into()));
+                }
+                let t = read(self.rng.pick(&tv));
+                match self.rng.below(9) {
+                    0 => Card::call_function("std.min", vec![t]),
+                    1 => Card::call_function("std.max", vec![t]),
+                    2 => Card::call_function("std.sorted", vec![t]),
+                    3 => Card::call_function("std.to_array", vec![t]),
+                    4 | 5 => {
+                        // key function (key, val) -> some value computed from val
+                        let body = match self.rng.below(3) {
+                            0 => read(&"val".to_string()),
+                            1 => bin(CardBody::Mul, read(&"val".to_string()), int(-1)),
+                            _ => Card::call_native("sum2", vec![read(&"val".to_string()), read(&"key".to_string())]),
+                        };
+                        let f = c(CardBody::Closure(Box::new(Function {
+                            arguments: vec!["key".into(), "val".into()],
+                            cards: vec![Card::return_card(body)],
+                        })));
+                        let name = *self.rng.pick(&["std.min_by_key", "std.max_by_key", "std.sorted_by_key"]);
+                        // reversed binding: the *first* supplied argument is the last declared parameter
+                        Card::call_function(name, vec![f, t])
+                    }
+                    _ => {
+                        // callback (i, v, k)
+                        let body = match self.rng.below(3) {
+                            0 => bin(CardBody::Less, read(&"v".to_string()), int(3)),
+                            1 => bin(CardBody::Add, read(&"v".to_string()), read(&"i".to_string())),
+                            _ => read(&"k".to_string()),
+                        };
+                        let f = c(CardBody::Closure(Box::new(Function {
+                            arguments: vec!["k".into(), "v".into(), "i".into()],
+                            cards: vec![Card::return_card(body)],
+                        })));
+                        let name = *self.rng.pick(&["std.filter", "std.map", "std.any"]);
+                        Card::call_function(name, vec![f, t])
+                    }
+                }
+            }
             24 => c(CardBody::CreateTable),
             _ => self.atom(),
         }
@@ -152,10 +194,26 @@ impl<'a> Ctx<'a> {
         match self.rng.below(4) {
             0 => c(CardBody::StringLiteral(self.rng.pick(&["a", "key", "value"]).to_string())),
             1 => {
-                let nv = self.num_vars();
+                // loop variables (indices / keys of plain tables) are safe keys
+                let nv: Vec<String> = self.locals().into_iter().filter(|n| n.starts_with('i') || n.starts_with('k')).collect();
                 if nv.is_empty() { int(0) } else { read(self.rng.pick(&nv)) }
             }
             _ => int(self.rng.range(0, 3)),
+        }
+    }
+
+    /// a value that is never a table (tables stored in tables could build cycles: K2)
+    fn store_value(&mut self) -> Card {
+        match self.rng.below(4) {
+            0 => {
+                let (a, b) = (self.scalar(), self.scalar());
+                bin(CardBody::Add, a, b)
+            }
+            1 => {
+                let nv: Vec<String> = self.locals().into_iter().filter(|n| n.starts_with('i')).collect();
+                if nv.is_empty() { self.scalar() } else { read(self.rng.pick(&nv)) }
+            }
+            _ => self.scalar(),
         }
     }
 
@@ -250,13 +308,13 @@ impl<'a> Ctx<'a> {
                 let v = self.expr(2);
                 self.set_global(v)
             }
-            8 => {
+            8 | 26 | 27 => {
                 // table construction
                 let v = if self.rng.chance(1, 2) {
                     c(CardBody::CreateTable)
                 } else {
-                    let n = self.rng.range(0, 3) as usize;
-                    c(CardBody::Array((0..n).map(|_| self.expr(1)).collect()))
+                    let n = self.rng.range(0, 5) as usize;
+                    c(CardBody::Array((0..n).map(|_| self.scalar()).collect()))
                 };
                 if new_locals {
                     let n = self.fresh_name("t");
@@ -275,9 +333,9 @@ impl<'a> Ctx<'a> {
                 }
                 let t = self.rng.pick(&tv).clone();
                 match self.rng.below(3) {
-                    0 => Card::set_property(self.expr(1), read(&t), self.key_expr()),
-                    1 => bin(CardBody::AppendTable, self.expr(1), read(&t)),
-                    _ => Card::set_var(format!("{t}.{}", self.rng.pick(&["a", "key"])), self.expr(1)),
+                    0 => Card::set_property(self.store_value(), read(&t), self.key_expr()),
+                    1 => bin(CardBody::AppendTable, self.store_value(), read(&t)),
+                    _ => Card::set_var(format!("{t}.{}", self.rng.pick(&["a", "key"])), self.store_value()),
                 }
             }
             11 => {
